@@ -312,6 +312,9 @@ Error BaseAssembler::embed_label(const Label& label, size_t data_size) {
 
     Fixup* fixup = _code->new_fixup(le, _section->section_id(), offset(), 0, of);
     if (ASMJIT_UNLIKELY(!fixup)) {
+      // Take the relocation back - a failed call must not leave it behind (it would patch whatever is emitted here next).
+      ASMJIT_ASSERT(_code->_relocations.last() == re);
+      Support::maybe_unused(_code->_relocations.pop());
       return report_error(make_error(Error::kOutOfMemory));
     }
 
